@@ -199,19 +199,26 @@ def rule_cells(ck):
     ck.clause('D3')
     w = P.func('csep.core.regions.CartesianGrid2D._build_bitmask_vec')
     o = ck.ob('C20-D3.idxmap', w, 'idx_map[row, col] = position of the polygon in self.polygons', w.node)
-    lp = [n for n in all_nodes(w) if isinstance(n, ast.For) and u(n.iter) == 'range(len(self.polygons))']
+    exw = Expander(P, w)
+    IDX = '__index__(builtins.len(self.polygons))'
     ok = False
-    if len(lp) == 1:
-        v = lp[0].target.id
-        for st in lp[0].body:
-            if isinstance(st, ast.Assign) and isinstance(st.targets[0], ast.Subscript) and isinstance(st.targets[0].slice, ast.Tuple) and \
-                    const_value(st.targets[0].slice.elts[-1]) == 1 and u(st.value) in ('int(%s)' % v, v):
-                ok = all(('[%s]' % v) in u(x) for x in st.targets[0].slice.elts[:2])
+    stores = [st for st in all_nodes(w) if isinstance(st, ast.Assign) and isinstance(st.targets[0], ast.Subscript)
+              and isinstance(st.targets[0].slice, ast.Tuple) and len(st.targets[0].slice.elts) == 3 and const_value(st.targets[0].slice.elts[-1]) == 1
+              and in_loop(st, w.node) is not None]
+    if len(stores) == 1:
+        st = stores[0]
+        val = u(strip_shape(exw.expand(st.value)))
+        pos = [u(exw.expand(x)) for x in st.targets[0].slice.elts[:2]]
+        ok = val in (IDX, 'builtins.int(%s)' % IDX) and all(p_.endswith('[%s]' % IDX) and 'bin1d_vec' in p_ for p_ in pos)
+        if not ok:
+            ck.note('idx_map store: value `%s`, position %s' % (val[:80], [p_[-70:] for p_ in pos]))
     (o.ok() if ok else o.fail('the index map is not filled with each polygon\'s position at its own (row, col)'))
     m = P.func('csep.core.regions.CartesianGrid2D._build_bitmask_vec')
     mids = find_assignments(m, 'midpoints')
     o = ck.ob('C20-D3.midorder', m, mids[0] if mids else 'midpoints', mids[0] if mids else m.node)
-    (o.ok() if len(mids) == 1 and u(mids[0].value) == 'numpy.array([poly.centroid() for poly in self.polygons])' else o.fail('midpoints are not listed in polygon order'))
+    from .common import element_of
+    good = len(mids) == 1 and u(element_of(P, m, mids[0].value)) == '__elem__(self.polygons).centroid()'
+    (o.ok() if good else o.fail('midpoints are not listed in polygon order'))
 
 
 ALLOWED_OBS = {'spatial_counts', 'magnitude_counts', 'spatial_magnitude_counts', 'event_count', 'name', 'region'}
